@@ -346,10 +346,14 @@ def listing_case(draw):
     _k, t = draw(gen.message(state, col['ro_id'], faults='none', rich=True, mid=777777))
     files.append(('valid', t))
     for _ in range(draw(st.integers(0, 3))):
-        kind = draw(st.sampled_from(['garbage', 'unknown', 'missing', 'dir', 'empty', 'notdir', 'toolong']))
+        kind = draw(st.sampled_from(['garbage', 'unknown', 'missing', 'dir', 'empty', 'notdir', 'toolong', 'undecodable']))
         content = {'garbage': 'this is <not xml', 'unknown': '<mos><mosID>x</mosID><heartbeat/></mos>',
-                   'empty': ''}.get(kind)
-        files.insert(draw(st.integers(0, len(files))), ('garbage' if kind == 'empty' else kind, content))
+                   'empty': '',
+                   # well-formed, but in an encoding the parser cannot decode
+                   'undecodable': '<?xml version="1.0" encoding="%s"?><mos><mosID>x</mosID><messageID>1</messageID>'
+                                  '<roDelete><roID>R</roID></roDelete></mos>'
+                                  % draw(st.sampled_from(['Shift_JIS', 'UCS-2', 'UTF-32', 'ANSI']))}.get(kind)
+        files.insert(draw(st.integers(0, len(files))), ('garbage' if kind in ('empty', 'undecodable') else kind, content))
     files = list(draw(gen.permutation(files))) if draw(st.booleans()) else files
     names = {}
     if draw(st.integers(0, 2)) == 0:
@@ -364,7 +368,8 @@ def listing_case(draw):
         # named relative to the current directory; editor backup / lock-file style names
         relative = True
         for i in list(names)[:2]:
-            names[i] = draw(st.sampled_from(['~backup{}.mos.xml', '~${}.mos.xml', '.hidden{}.mos.xml'])).format(i)
+            names[i] = draw(st.sampled_from(['~backup{}.mos.xml', '~${}.mos.xml', '.hidden{}.mos.xml', '@list{}.mos.xml',
+                                             '+plus{}.xml', '#hash{}.xml'])).format(i)
     return {'cmd': draw(st.sampled_from(['detect', 'inspect'])), 'files': [list(f) for f in files], 'names': names,
             'relative': relative}
 
@@ -372,7 +377,8 @@ def listing_case(draw):
 @st.composite
 def merge_case(draw):
     shape = draw(st.sampled_from(['valid', 'valid', 'valid', 'no-delete', 'two-creates', 'garbage-member',
-                                  'strict-failure', 'no-input', 'missing-member', 'completed-create']))
+                                  'strict-failure', 'no-input', 'missing-member', 'completed-create',
+                                  'blank-mid-member', 'undecodable-member']))
     faults = 'heavy' if shape == 'strict-failure' else 'none'
     col = draw(colgen.collection(min_msgs=1, max_msgs=6, faults=faults, rich=draw(st.booleans()),
                                  with_delete='no' if shape == 'no-delete' else 'always'))
@@ -385,6 +391,16 @@ def merge_case(draw):
         files.insert(draw(st.integers(0, len(files))), ['garbage', '<mos><unclosed></mos>'])
     elif shape == 'missing-member':
         files.insert(draw(st.integers(0, len(files))), ['missing', None])
+    elif shape == 'blank-mid-member':
+        # a member whose messageID is empty / not a number: whatever the library raises, status 2
+        r = ET.fromstring(files[-1][1])
+        r.find('messageID').text = draw(st.sampled_from([None, 'abc', '']))
+        files[-1] = ['valid', ET.tostring(r, encoding='unicode')]
+    elif shape == 'undecodable-member':
+        files.insert(draw(st.integers(0, len(files))),
+                     ['garbage', '<?xml version="1.0" encoding="%s"?><mos><mosID>x</mosID><messageID>1</messageID>'
+                                 '<roStoryDelete><roID>R</roID><storyID>1</storyID></roStoryDelete></mos>'
+                      % draw(st.sampled_from(['Shift_JIS', 'UCS-2', 'ANSI']))])
     elif shape == 'no-input':
         files = []
     elif shape == 'completed-create':
